@@ -110,6 +110,15 @@ func c14IxShapes(g *Gen) error {
 		{"engine/engine.go", "EngineImpl.ExpiredCacheIndexes", "src_ExpiredCacheIndexes"},
 		{"engine/engine.go", "EngineImpl.UpdateIndexDurationInfo", "src_UpdateIndexDurationInfo"},
 		{"engine/engine.go", "EngineImpl.containIdxid", "src_containIdxid"},
+		{"engine/engine.go", "DBPTInfo.indexHeldByLiveShardNoLock", "src_indexHeldByLiveShard"},
+		// how shard groups are assigned to index groups (Align.lean)
+		{"lib/util/lifted/influx/meta/indexinfo.go", "normalisedIndexDuration", "src_normalisedIndexDuration"},
+		{"lib/util/lifted/influx/meta/indexinfo.go", "IndexGroupInfo.Contains", "src_ixContains"},
+		{"lib/util/lifted/influx/meta/indexinfo.go", "IndexGroupInfos.Less", "src_ixLess"},
+		{"lib/util/lifted/influx/meta/data.go", "Data.newShardGroup", "src_newShardGroup"},
+		{"lib/util/lifted/influx/meta/data.go", "Data.createIndexGroupIfNeeded", "src_createIndexGroupIfNeeded"},
+		{"lib/util/lifted/influx/meta/data.go", "Data.CreateIndexGroup", "src_CreateIndexGroup"},
+		{"lib/util/lifted/influx/meta/retentionpolicy.go", "RetentionPolicyInfo.ShardGroupByTimestampAndEngineType", "src_ShardGroupByTimestamp"},
 		{"engine/partition.go", "DBPTInfo.getShardIndex", "src_getShardIndex"},
 		{"services/retention/service.go", "Service.UpdateIndexDurationInfo", "src_svcUpdateIndexDurationInfo"},
 		{"services/retention/service.go", "Service.DeleteByEngine", "src_DeleteByEngine"},
